@@ -30,9 +30,11 @@ def cfgOf0 (mode org alloc : String) : Option Cfg := do
   | "pmr"  => some { pocma := false, pocs := false, empty := false, ntags := 3, ndebug := nd, org := o, porg := po }
   | _ => none
 
-def cfgOf (mode org alloc mc : String) : Option Cfg :=
-  (cfgOf0 mode org alloc).bind fun c => match mc with
-    | "0" => some { c with elemMoveCompiles := false } | "1" => some { c with elemMoveCompiles := true } | _ => none
+def cfgOf (mode org alloc mc dg : String) : Option Cfg :=
+  (cfgOf0 mode org alloc).bind fun c => match mc, dg with
+    | "0", "0" => some { c with elemMoveCompiles := false } | "1", "0" => some { c with elemMoveCompiles := true }
+    | "0", "1" => some { c with elemMoveCompiles := false, keepDims := true } | "1", "1" => some { c with elemMoveCompiles := true, keepDims := true }
+    | _, _ => none
 
 def nats (ws : List String) : Option (List Nat) := ws.mapM String.toNat?
 
@@ -74,8 +76,8 @@ def parseHist (line : String) : Option Hist :=
   match line.splitOn "|" with
   | hd :: rest =>
     match words hd with
-    | ["h", mode, org, alloc, fa, fc, mc] =>
-      match cfgOf mode org alloc mc, fa.toNat?, fc.toNat? with
+    | ["h", mode, org, alloc, fa, fc, mc, dg] =>
+      match cfgOf mode org alloc mc dg, fa.toNat?, fc.toNat? with
       | some c, some fa, some fc => some { cfg := c, fa := fa, fc := fc, ops := rest.map (fun o => parseOp (words o)), names := rest.map words }
       | _, _, _ => none
     | _ => none
